@@ -7,6 +7,7 @@ import (
 	"fmt"
 	"go/token"
 	"go/types"
+	"strings"
 
 	"golang.org/x/tools/go/ssa"
 )
@@ -867,4 +868,97 @@ func mayReturnNilError(v ssa.Value) bool {
 		return true
 	}
 	return false
+}
+
+// ---------------------------------------------------------------- CL-8
+
+func init() {
+	register(&Rule{
+		ID: "CL-8",
+		Doc: "Close is final for the Store too: Store.Close drops the store's footer when the last reference goes, so a persistence round that arrives afterwards sees \"no footer yet\". " +
+			"Every creation of a data file on behalf of an API call (a call of createNextFileLOCKED) is therefore reachable from every API root only behind the open edge of a test of Store.refs against zero " +
+			"(`refs <= 0` leads to an error return): otherwise a late round starts a NEW file holding only that round, which is the newest at the next open - it is adopted and the file with everything persisted before is deleted (D27). " +
+			"openStore, which builds the Store, is the constructor and excepted. Guard reachability over the call graph as for R-RO.",
+		Props:      []string{"C16", "C04"},
+		Floor:      1,
+		Run:        ruleCL8,
+		Exceptions: []string{"openStore: creates the first file of a store that is not published yet (the *Store is a fresh allocation of this function)"},
+	})
+}
+
+// refsOpenEdge: the edge establishes Store.refs > 0 (the store is open).
+func refsOpenEdge(fRefs *types.Var) func(from, to *ssa.BasicBlock, cond ssa.Value, onTrue bool) bool {
+	return func(from, to *ssa.BasicBlock, cond ssa.Value, onTrue bool) bool {
+		neg := false
+		for {
+			u, ok := cond.(*ssa.UnOp)
+			if !ok || u.Op != token.NOT {
+				break
+			}
+			neg = !neg
+			cond = u.X
+		}
+		b, ok := cond.(*ssa.BinOp)
+		if !ok {
+			return false
+		}
+		op := b.Op
+		var other ssa.Value
+		if fv, _ := loadedField(b.X); fv == fRefs {
+			other = b.Y
+		} else if fv, _ := loadedField(b.Y); fv == fRefs {
+			other = b.X
+			op = flipCmp(op)
+		} else {
+			return false
+		}
+		k, isK := constInt(other)
+		if !isK {
+			return false
+		}
+		if onTrue == neg {
+			op = negCmp(op)
+		}
+		// refs OP k holds on this edge
+		switch {
+		case op == token.GTR && k >= 0, op == token.GEQ && k >= 1:
+			return true
+		case op == token.NEQ && k == 0:
+			return true // refs is never negative on a live store; != 0 is the open test some code uses
+		}
+		return false
+	}
+}
+
+func ruleCL8(c *Ctx) []*Ob {
+	o := newObs(c, "CL-8")
+	fRefs := c.Field("Store", "refs")
+	create := c.Fn("(*Store).createNextFileLOCKED")
+	openStore := c.Fn("openStore")
+	ga := &roAnalysis{c: c, memo: map[*ssa.Function]int{}, what: "Store.refs > 0 (store still open)"}
+	open := refsOpenEdge(fRefs)
+	ga.local = func(f *ssa.Function, instr ssa.Instruction) bool {
+		return mustPrecede(f, instr, neverInstr, open)
+	}
+	n := 0
+	for _, f := range c.Funcs {
+		for _, k := range callsToFn(f, create) {
+			if root(f) == openStore {
+				o.trivial(c.fname(f), "call createNextFileLOCKED", c.instrPos(k), "constructor of the store (table exception)")
+				continue
+			}
+			n++
+			g, chain := ga.siteGuarded(f, k)
+			ob := o.add(c.fname(f), "call createNextFileLOCKED", c.instrPos(k), g, "reachable from every API root only behind a test that the store still has references")
+			if !g {
+				ob.Why = "a store whose last reference was closed (footer dropped) can still start a new data file: " + strings.Join(chain, " -> ") +
+					" - the file holds only the late round, is the newest at the next open and shadows everything persisted before"
+				ob.Path = chain
+			}
+		}
+	}
+	if n == 0 {
+		o.add("Store", "call createNextFileLOCKED", "-", false, "anchor lost: nobody creates data files")
+	}
+	return o.list
 }
